@@ -17,7 +17,7 @@ import (
 
 // Item programs for the ID placeholder: a '|'-separated list of actions
 //   S<x> set placeholder to x (x may be empty)    R read it    G GetIdOrPlaceholder("")    E GetIdOrPlaceholder("explicit") (must not touch the placeholder)
-//   F fail (typed error)    P panic    N / NF forward another request message to an executor from inside the handler (NF: with a failing item)
+//   F fail (typed error)    P panic    T fail on the first attempt at the item only    N / NF forward another request message to an executor from inside the handler (NF: with a failing item)
 // and two whole-item programs refused by the router before any handler runs: U (operation without a route), X (critical extension)
 // The handler answers with the observations it made ("R=<v>;G=<v>").
 
@@ -76,6 +76,12 @@ func phHandler(yield bool) func(ctx context.Context, req *payloads.ActivateReque
 					}
 				}
 				obs = append(obs, "N="+strings.Join(in, "/"))
+			case 'T':
+				// transient failure: the first attempt at this item fails, later attempts (a retrying middleware) go on
+				phAttempts[req.UniqueIdentifier]++
+				if phAttempts[req.UniqueIdentifier] == 1 {
+					return nil, kmipserver.Errorf(kmip.ResultReasonItemNotFound, "scripted transient failure")
+				}
 			case 'F':
 				return nil, kmipserver.Errorf(kmip.ResultReasonItemNotFound, "scripted failure")
 			case 'P':
@@ -85,6 +91,11 @@ func phHandler(yield bool) func(ctx context.Context, req *payloads.ActivateReque
 		return &payloads.ActivateResponsePayload{UniqueIdentifier: strings.Join(obs, ";")}, nil
 	}
 }
+
+// phAttempts counts the attempts per item (action T); phMwMode is the batch-item middleware of the executor under test:
+// "" none / pass-through, "retry" (a failed attempt is tried once more), "absorb" (a failed attempt is answered as a success).
+var phAttempts = map[string]int{}
+var phMwMode = ""
 
 // phNested is the executor that the 'N' action forwards to (set by phExecutor: the executor under test itself, or a second one).
 var phNested *kmipserver.BatchExecutor
@@ -132,12 +143,22 @@ func phModel(items []string, stop bool) []string {
 			case 'N':
 				// a request of its own: starts empty, and nothing it does is seen by the forwarding request
 				obs = append(obs, "N="+strings.Join(phModel(phNestedItems(a), false), "/"))
+			case 'T':
+				// fails once: with a retrying middleware the second attempt passes here (T only starts a program)
+				if phMwMode != "retry" {
+					failed = true
+				}
 			case 'F', 'P':
 				failed = true
 			}
 			if failed {
 				break
 			}
+		}
+		if failed && phMwMode == "absorb" && prog != "U" && prog != "X" && !strings.Contains(prog, "P") {
+			// the middleware answers the failed attempt as a success: the item has not failed, nothing is cleared
+			out[i] = "absorbed"
+			continue
 		}
 		if failed {
 			ph = ""
@@ -232,6 +253,26 @@ func phExecutor(yield, withMW bool) *kmipserver.BatchExecutor {
 	exec := kmipserver.NewBatchExecutor()
 	exec.Route(kmip.OperationActivate, kmipserver.HandleFunc(phHandler(yield)))
 	phNested = exec
+	phAttempts = map[string]int{}
+	switch phMwMode {
+	case "retry":
+		exec.BatchItemUse(func(next kmipserver.BatchItemNext, ctx context.Context, bi *kmip.RequestBatchItem) (*kmip.ResponseBatchItem, error) {
+			resp, err := next(ctx, bi)
+			if err != nil {
+				return next(ctx, bi)
+			}
+			return resp, err
+		})
+	case "absorb":
+		exec.BatchItemUse(func(next kmipserver.BatchItemNext, ctx context.Context, bi *kmip.RequestBatchItem) (*kmip.ResponseBatchItem, error) {
+			resp, err := next(ctx, bi)
+			if err != nil {
+				return &kmip.ResponseBatchItem{Operation: bi.Operation, UniqueBatchItemID: bi.UniqueBatchItemID, ResultStatus: kmip.ResultStatusSuccess,
+					ResponsePayload: &payloads.ActivateResponsePayload{UniqueIdentifier: "absorbed"}}, nil
+			}
+			return resp, err
+		})
+	}
 	if withMW {
 		exec.Use(func(next kmipserver.Next, ctx context.Context, msg *kmip.RequestMessage) (*kmip.ResponseMessage, error) { return next(ctx, msg) })
 		exec.BatchItemUse(func(next kmipserver.BatchItemNext, ctx context.Context, bi *kmip.RequestBatchItem) (*kmip.ResponseBatchItem, error) {
@@ -252,6 +293,16 @@ func phNestedPrograms() []string {
 	return []string{"", "Sa", "R", "G", "N", "NF", "Sa|N", "N|R", "Sa|N|R", "Sa|NF|R", "N|G", "F"}
 }
 
+// phSeqMw: all batches over the given programs on an executor whose batch-item middleware retries / absorbs failed attempts.
+func phSeqMw(mode string, programs []string) func() {
+	inner := phSeqOver(3, func() []string { return programs }, false)
+	return func() {
+		phMwMode = mode
+		defer func() { phMwMode = "" }()
+		inner()
+	}
+}
+
 func phSeqOver(maxItems int, programs func() []string, secondExecutor bool, withMW ...bool) func() {
 	return func() {
 		resetPackages()
@@ -267,6 +318,7 @@ func phSeqOver(maxItems int, programs func() []string, secondExecutor bool, with
 			if len(items) > 0 {
 				for _, stop := range []bool{false, true} {
 					n++
+					phAttempts = map[string]int{}
 					resp := exec.HandleRequest(parent, phRequest("q", items, stop))
 					if d := phCheck(resp, items, stop); d != "" {
 						mc.Failf("placeholder-model-mismatch: batch %q stop=%v: %s", items, stop, d)
@@ -430,6 +482,12 @@ func init() {
 	})
 	register("ph-seq-exhaustive-t", func() *Scenario {
 		return &Scenario{Name: "ph-seq-exhaustive-t", Doc: "all batches of <=3 items x <=2 actions (+panic items), Continue/Stop, each followed by a probe request", Body: phSeqExhaustive(3, 2), MaxSteps: 200000000}
+	})
+	register("ph-seq-retry", func() *Scenario {
+		return &Scenario{Name: "ph-seq-retry", Doc: "all batches of <=3 items on an executor whose batch-item middleware tries a failed attempt once more; programs with a transient failure (T: first attempt only): an item that succeeds in the end has not failed, the placeholder stays", Body: phSeqMw("retry", []string{"", "Sa", "R", "G", "T", "T|R", "T|G", "T|Sb", "F", "Sb|F"}), MaxSteps: 200000000}
+	})
+	register("ph-seq-absorb", func() *Scenario {
+		return &Scenario{Name: "ph-seq-absorb", Doc: "all batches of <=3 items on an executor whose batch-item middleware answers a failed attempt as a success (idempotent operations): nothing is cleared", Body: phSeqMw("absorb", []string{"", "Sa", "R", "G", "F", "Sb|F", "G|F"}), MaxSteps: 200000000}
 	})
 	register("ph-seq-nested", func() *Scenario {
 		return &Scenario{Name: "ph-seq-nested", Doc: "all batches of <=3 items over programs in which a handler forwards another request message (2-3 items) to the same executor with its own context: the forwarded request has a placeholder scope of its own", Body: phSeqOver(3, phNestedPrograms, false), MaxSteps: 200000000}
